@@ -320,8 +320,30 @@ func RunWrite(cfg WriterCfg, ops []WOp, plan sim.WritePlan, record bool) (out *W
 		}
 	}()
 	w := NewWriter(cfg, sink)
+	// Lob payloads are handed to the writer as adjacent windows of one buffer filled in advance (what a caller slicing
+	// records out of a read buffer does): each window has spare capacity that belongs to the next one.
+	var arena []byte
+	for _, op := range ops {
+		if (op.Op == "clob" || op.Op == "blob") && op.V != nil {
+			arena = append(arena, op.V.Bytes...)
+		}
+	}
+	arena = append(arena, make([]byte, 32)...)
+	off := 0
 	for i = 0; i < len(ops); i++ {
-		err := Apply(w, ops[i])
+		var err error
+		if (ops[i].Op == "clob" || ops[i].Op == "blob") && ops[i].V != nil {
+			n := len(ops[i].V.Bytes)
+			win := arena[off : off+n]
+			off += n
+			if ops[i].Op == "clob" {
+				err = w.WriteClob(win)
+			} else {
+				err = w.WriteBlob(win)
+			}
+		} else {
+			err = Apply(w, ops[i])
+		}
 		if out.FailOp < 0 && sink.FirstFailCall >= 0 {
 			out.FailOp = i
 		}
